@@ -11,11 +11,13 @@ META = {
             "configuration of a bounded space (profile sets x worlds x identities x filters x requested attributes x request kinds); "
             "seeded random profile sets / data / identities / requests are then run against a REAL server (profiles are ordinary "
             "entries parsed by reload_accesscontrols at commit; search_ext, recycle-bin search and exists through the public event "
-            "constructors) and every real answer is judged by L1 in TLC, with L2 required to predict it exactly (drift otherwise).",
+            "constructors, LDAP search and compare through the real LdapServer::do_op with a bound token) and every real answer is "
+            "judged by L1 in TLC, with L2 required to predict it exactly (drift otherwise).",
     "note": "exhaustive within <=2 profiles from a 24-profile pool, 6 (quick) / 36 (thorough) worlds of 4 entries; real-server runs are "
             "sampled (seeded). Trusted: TLC, the projection of stored entries / ACP entries / identities to JSON, the backend candidate "
-            "set of a request filter (property C01). LDAP search/compare is not driven here (C40 covers the LDAP gateway); internal "
-            "(system) identities are outside the statement. Reading memberof implies reading directmemberof (documented rule).",
+            "set of a request filter (property C01). LDAP requests use unix-bind sessions (which the gateway bounds to the anonymous "
+            "identity) with explicit native attribute lists; internal (system) identities are outside the statement. Reading memberof "
+            "implies reading directmemberof (documented rule). The DN of an LDAP result names the entry by spn: counted as a remark only.",
     "design_ref": "DESIGN.md section 6, C23",
     "technique": "TLA+ grant model (KAccess) model-checked by TLC; trace validation of real search_ext / exists observations",
 }
@@ -47,7 +49,7 @@ def run(tier, replay):
     if replay:
         lib.kverif("access", ["c23", "--out", obs, "--replay", replay])
     else:
-        n, m = (24, 110) if tier == "quick" else (160, 160)
+        n, m = (24, 120) if tier == "quick" else (160, 170)
         lib.kverif("access", ["c23", "--out", obs, "--configs", n, "--searches", m, "--seed", lib.seed()])
     tv = lib.trace_validate("KAccessTrace", obs, PID, timeout=3000)
     lines = lib.read_lines(obs)
@@ -62,7 +64,7 @@ def run(tier, replay):
         r = recs[ln - 1]
         R.violation(f"{sig} kind={r['kind']} scope={r['id']['scope']} origin={r['id']['origin']}",
                     f"{r['kind']} as {r['id']['u']} ({r['id']['scope']}) with filter {json.dumps(r['f'])} disclosed "
-                    f"{json.dumps(r['out']) if r['kind'] != 'exists' else 'existence'}: {sig}",
+                    f"{json.dumps(r['out']) if r['kind'] not in ('exists', 'ldapcmp') else 'existence'}: {sig}",
                     [lines[cfg_of[ln - 1]], lines[ln - 1]])
     srch = [r for r in recs if r["a"] == "search"]
     R.coverage = {
@@ -72,7 +74,10 @@ def run(tier, replay):
         "l2_drift": len(tv["drift"]),
         "first_drift_line": tv["drift"][0][2] if tv["drift"] else None,
         "configurations": sum(1 for r in recs if r["a"] == "cfg"),
-        "requests_by_kind": {k: sum(1 for r in srch if r["kind"] == k) for k in ("ext", "recycle", "exists")},
+        "requests_by_kind": {k: sum(1 for r in srch if r["kind"] == k) for k in ("ext", "recycle", "exists", "ldap", "ldapcmp")},
+        "ldap_searches_disclosing_entries": sum(1 for r in srch if r["kind"] == "ldap" and r["out"]),
+        "ldap_compare_true_or_false": sum(1 for r in srch if r["kind"] == "ldapcmp" and r.get("ex2")),
+        "remark_ldap_dn_names_spn_without_spn_grant": sum(1 for t in tv["tuples"] if t[0] == "REMARK"),
         "requests_disclosing_entries": sum(1 for r in srch if r["out"]),
         "entries_disclosed": sum(len(r["out"]) for r in srch),
         "exists_true": sum(1 for r in srch if r["ex"]),
